@@ -102,22 +102,30 @@ def safe_run(mod, case, hang_s=10.0):
     """
     old_out = sys.stdout
     sys.stdout = _NULL
-    old_handler = signal.signal(signal.SIGALRM, _alarm)
+    # the limit is CPU time of this process (a spinning kernel burns CPU; a loaded machine does not make a run "hang"),
+    # with a generous wall-clock limit as a back-stop for code that blocks without computing
+    old_handler = signal.signal(signal.SIGVTALRM, _alarm)
+    old_wall = signal.signal(signal.SIGALRM, _alarm)
+    TIMER, WALL = signal.ITIMER_VIRTUAL, signal.ITIMER_REAL
+    wall_s = max(120.0, hang_s * 12)
     # runs that have to precede this one in the same interpreter (code under test that keeps state between
     # independent simulations): executed first, their verdicts are ignored
     for pre in case.get('pre_runs', []) or []:
-        signal.setitimer(signal.ITIMER_REAL, hang_s)
+        signal.setitimer(TIMER, hang_s)
+        signal.setitimer(WALL, wall_s)
         try:
             mod.run(pre)
         except BaseException:
             pass
         finally:
-            signal.setitimer(signal.ITIMER_REAL, 0)
-    signal.setitimer(signal.ITIMER_REAL, hang_s)
+            signal.setitimer(TIMER, 0)
+            signal.setitimer(WALL, 0)
+    signal.setitimer(TIMER, hang_s)
+    signal.setitimer(WALL, wall_s)
     try:
         res = mod.run(case)
     except Hang:
-        res = {'viol': [('%s.HANG' % mod.ID, 'run did not finish within %.0fs of wall time '
+        res = {'viol': [('%s.HANG' % mod.ID, 'run did not finish within %.0fs of CPU time '
                          '(code under test spins without yielding?)' % hang_s)],
                'digest': 0, 'nontrivial': False, 'stats': {}, 'simtime': 0.0, 'steps': 0}
     except HarnessError:
@@ -129,8 +137,10 @@ def safe_run(mod, case, hang_s=10.0):
         res = {'viol': [('%s.RAISE' % mod.ID, 'code under test raised %s at %s' % (repr(e), frames[-1]))],
                'digest': 0, 'nontrivial': False, 'stats': {}, 'simtime': 0.0, 'steps': 0}
     finally:
-        signal.setitimer(signal.ITIMER_REAL, 0)
-        signal.signal(signal.SIGALRM, old_handler)
+        signal.setitimer(TIMER, 0)
+        signal.setitimer(WALL, 0)
+        signal.signal(signal.SIGVTALRM, old_handler)
+        signal.signal(signal.SIGALRM, old_wall)
         sys.stdout = old_out
     return res
 
